@@ -396,8 +396,9 @@ def corner_scenarios(draw):
     hunt/C11, coordinates and counts generated): every case is noise-free and compared under reflection."""
     src = S.DrawSrc(draw)
     kind = src.choice(["event_order", "micro_intron_blocks", "threaded_ends", "adjacent_cluster", "corner_start",
-                       "similar_novel", "monoexon_overlap"])
+                       "similar_novel", "monoexon_overlap", "ragged_polya", "flanking_introns", "readthrough_tip"])
     extra_opts = []
+    force_dt = None
     if os.environ.get("VERIF_C11_KIND"):
         kind = os.environ["VERIF_C11_KIND"]         # debugging aid: one template only
     strand = src.choice(["+", "-"])
@@ -491,6 +492,52 @@ def corner_scenarios(draw):
         na = src.int(5, 8)
         add(A, na, prefix="a")
         add(B, src.int(3, na - 1), prefix="b")
+    elif kind == "ragged_polya":
+        # one novel chain whose noise-free polyA reads end at three places: E (most reads), E+d2 and E+d3 with
+        # d2 < apa_delta (50) < d3 and d3 - d2 < apa_delta: the middle reads are nearer to the far end
+        T = chain([src.int(180, 240)] * 3, [src.int(280, 400)] * 2, base)
+        trs = [{"id": "T", "exons": T}]
+        s0 = T[-1][1] + src.int(1500, 2500)
+        N = chain([src.int(250, 350), src.int(180, 240), src.int(400, 500)], [src.int(600, 800), src.int(700, 900)], s0)
+        novel.append(N)
+        d2, d3 = src.int(34, 46), src.int(56, 66)
+
+        def shifted(d):
+            if strand == "+":
+                return N[:-1] + [[N[-1][0], N[-1][1] + d]]
+            return [[N[0][0] - d, N[0][1]]] + N[1:]
+        add(N, src.int(4, 6), prefix="a")
+        add(shifted(d2), 2, prefix="b")
+        add(shifted(d3), src.int(2, 3), prefix="c")
+    elif kind == "flanking_introns":
+        # a read whose middle block covers a single-exon gene, with an intron of the read on either side of the gene
+        g0 = base + src.int(900, 1400)
+        G = [[g0, g0 + src.int(300, 500)]]
+        trs = [{"id": "T", "exons": G}]
+        left = [g0 - src.int(900, 1100), g0 - src.int(700, 850)]
+        mid = [g0 - src.int(60, 120), G[0][1] + src.int(60, 120)]
+        right = [G[0][1] + src.int(500, 700), G[0][1] + src.int(800, 1000)]
+        add([left, mid, right], src.int(1, 3), tail=src.bool(0.5), prefix="f")
+        if src.bool(0.5):
+            add([left, mid], src.int(1, 2), tail=False, prefix="l")
+        if src.bool(0.5):
+            add([mid, right], src.int(1, 2), tail=False, prefix="r")
+    elif kind == "readthrough_tip":
+        # tail-less reads (PacBio defaults): many reads of a 2-exon transcript X, many of a 3-exon transcript Y behind
+        # it, and a single read-through read joining the (prolonged) last exon of X to the first exon of Y
+        T = chain([src.int(180, 240)] * 3, [src.int(280, 400)] * 2, base)
+        trs = [{"id": "T", "exons": T}]
+        s0 = T[-1][1] + src.int(1500, 2500)
+        X = chain([src.int(250, 350), src.int(300, 400)], [src.int(500, 700)], s0)
+        Y = chain([src.int(250, 350), src.int(180, 240), src.int(300, 400)], [src.int(500, 700), src.int(500, 700)],
+                  X[-1][1] + src.int(900, 1300))
+        novel += [X, Y]
+        nx = src.int(101, 110)
+        add(X, nx, tail=False, prefix="x")
+        add(Y, nx, tail=False, prefix="y")
+        add([X[0], [X[1][0], X[1][1] + 50], Y[0]] if src.bool(0.5) else [[X[1][0], X[1][1] + 50], Y[0]], 1,
+            tail=False, prefix="t")
+        force_dt = "pacbio_ccs"
     elif kind == "monoexon_overlap":
         # overlapping unspliced transcripts on opposite strands (polyA tails vs polyT heads), unequal support
         T = chain([src.int(180, 240)] * 3, [src.int(280, 400)] * 2, base)
@@ -543,6 +590,8 @@ def corner_scenarios(draw):
           "opts": ["--data_type", src.choice(["nanopore", "pacbio_ccs"]), "--no_gzip", "--threads", "1"],
           "noise_free": True, "corner": kind, "transform": {"kind": "reflect"}}
     sc["opts"] += extra_opts
+    if force_dt:
+        sc["opts"][sc["opts"].index("--data_type") + 1] = force_dt
     return sc
 
 
